@@ -102,6 +102,38 @@ Theorem C11_non_grpc_untouched :
 Proof. intros decomp comp v ops H. now apply non_grpc_untouched. Qed.
 Print Assumptions C11_non_grpc_untouched.
 
+(* Streams created by ONE factory value are independent.  [run_session] runs
+   HEADERS/DATA ops of several streams in any interleaving, each stream on its
+   own state (own gRPC flag, encodings, reassembly buffers), an error stopping
+   only its stream.  What stream [i] is shown / what reaches its sinks is
+   exactly the run of stream [i]'s own ops alone ... *)
+Theorem C11_session_projection :
+  forall decomp comp v sops outs i,
+    run_session decomp comp v sess0 sops = Some outs ->
+    run_ops decomp comp v pair0 (ops_of i sops) = Some (outs_of i outs).
+Proof.
+  intros decomp comp v sops outs i H.
+  exact (session_projection decomp comp v sops sess0 outs i eq_refl H).
+Qed.
+Print Assumptions C11_session_projection.
+
+(* ... hence non-interference: it depends only on stream [i]'s own headers and
+   frames, for all other streams and all interleavings (so every per-stream
+   theorem above holds for each stream of a session, and a non-gRPC stream is
+   untouched whatever gRPC streams came before it). *)
+Theorem C11_streams_independent :
+  forall decomp comp v sops sops' outs outs' i,
+    run_session decomp comp v sess0 sops = Some outs ->
+    run_session decomp comp v sess0 sops' = Some outs' ->
+    ops_of i sops = ops_of i sops' -> outs_of i outs = outs_of i outs'.
+Proof. exact streams_independent. Qed.
+Print Assumptions C11_streams_independent.
+
+Theorem C11_session_total :
+  forall decomp comp v sops, run_session decomp comp v sess0 sops <> None.
+Proof. intros decomp comp v sops. apply session_total. Qed.
+Print Assumptions C11_session_total.
+
 (* The executable oracle evaluated on the real implementation's calls is the
    conjunction of the clauses above, as a proposition. *)
 Theorem C11_oracle_is_the_property :
@@ -226,4 +258,19 @@ Example C11_ops_example :
   = Some [[PHeader CtoS false; SHeader CtoS false]; [PHeader StoC false; SHeader StoC false];
           [PMsg StoC (Some []) false; SData StoC [zero; zero; zero; zero; zero] false];
           [PHeader StoC true; SHeader StoC true]].
+Proof. vm_compute. reflexivity. Qed.
+
+(* a gRPC stream then a non-gRPC stream from the same factory, interleaved:
+   the second one's DATA reaches its sink untouched *)
+Example C11_session_example :
+  let h (n v : string) := (list_ascii_of_string n, list_ascii_of_string v) in
+  run_session id_decomp id_comp repaired sess0
+    [(0, OpHeader CtoS [h "content-type" "application/grpc"]%string false);
+     (1, OpHeader CtoS [h "content-type" "application/json"]%string false);
+     (0, OpData CtoS [zero; zero; zero] false);
+     (1, OpData CtoS ["{"; "}"]%char true);
+     (0, OpData CtoS [zero; zero] true)]
+  = Some [(0, [PHeader CtoS false; SHeader CtoS false]); (1, [SHeader CtoS false]);
+          (0, []); (1, [SData CtoS ["{"; "}"]%char true]);
+          (0, [PMsg CtoS (Some []) true; SData CtoS [zero; zero; zero; zero; zero] true])].
 Proof. vm_compute. reflexivity. Qed.
